@@ -38,6 +38,17 @@ def generate(ctx):
                 case = aimed
                 meta["aimed_at_floor_window"] = True
         yield "game", dict(case=case, meta=meta)
+    # shape lattice: every tie-group composition for k = 5..8 teams x systematic team-size patterns (sharded)
+    idx = 0
+    for rep in range(1 if ctx.tier == "quick" else 12):
+        for m in MODEL_NAMES:
+            for k in (5, 6, 7, 8):
+                idx += 1
+                if idx % ctx.nshards != ctx.shard:
+                    continue
+                for case, meta in gen.shape_cases(ctx.rng, m, k):
+                    yield "game", dict(case=case, meta=meta)
+                ctx.count("shape_lattice_complete_k_x_model")
     # exhaustive weak orders on base games (sharded by base game index)
     nbase = 2 if ctx.tier == "quick" else 80
     idx = 0
